@@ -140,7 +140,8 @@ func (a *ArrayAccess) String() string {
 // ObjectLiteral represents an object literal in the source code.
 type ObjectLiteral struct {
 	Properties map[string]Expr
-	Keys       []string // property names in source order
+	Keys       []string // property names as written, in source order (a name may repeat)
+	Values     []Expr   // the initialiser written after each of Keys
 }
 
 func (o *ObjectLiteral) String() string {
@@ -149,7 +150,7 @@ func (o *ObjectLiteral) String() string {
 		if i > 0 {
 			val += ", "
 		}
-		val += fmt.Sprintf("%s: %s", key, o.Properties[key].String())
+		val += fmt.Sprintf("%s: %s", key, o.Values[i].String())
 	}
 	val += "}"
 	return val
